@@ -17,10 +17,49 @@ type Snap struct {
 }
 
 type region struct {
-	p    unsafe.Pointer
-	n    uintptr
-	root int
-	path string
+	p     unsafe.Pointer
+	n     uintptr
+	root  int
+	path  string
+	holes [][2]uintptr // byte ranges that are not compared (see syncHoles)
+}
+
+// syncHoles lists the byte ranges of a value of type t that hold synchronisation or cache
+// machinery - fields whose type comes from sync, sync/atomic or the scheduler's sync shim (Mutex,
+// RWMutex, Once, Pool, atomic.*). Taking a lock, publishing a flag or parking an item in a pool is
+// not a modification of the object in the sense of the properties (it carries no value of the
+// object), and a monitor that looks at raw memory must not report it.
+func syncHoles(t reflect.Type, base uintptr, out *[][2]uintptr) {
+	switch t.Kind() {
+	case reflect.Struct:
+		if p := t.PkgPath(); p == "sync" || p == "sync/atomic" || strings.HasSuffix(p, "/zzverif/vsched") {
+			*out = append(*out, [2]uintptr{base, base + t.Size()})
+			return
+		}
+		for i := 0; i < t.NumField(); i++ {
+			f := t.Field(i)
+			syncHoles(f.Type, base+f.Offset, out)
+		}
+	case reflect.Array:
+		if t.Len() > 0 && t.Len() <= 64 {
+			for i := 0; i < t.Len(); i++ {
+				syncHoles(t.Elem(), base+uintptr(i)*t.Elem().Size(), out)
+			}
+		}
+	}
+}
+
+func equalOutside(a, b []byte, holes [][2]uintptr) bool {
+	pos := uintptr(0)
+	for _, h := range holes {
+		if h[0] > pos && !bytes.Equal(a[pos:h[0]], b[pos:h[0]]) {
+			return false
+		}
+		if h[1] > pos {
+			pos = h[1]
+		}
+	}
+	return pos >= uintptr(len(a)) || bytes.Equal(a[pos:], b[pos:])
 }
 
 // follow decides whether pointers/interfaces to values of this type are walked.
@@ -38,11 +77,15 @@ func NewSnap(roots ...any) *Snap {
 	s := &Snap{}
 	seen := map[unsafe.Pointer]bool{}
 	var walk func(v reflect.Value, root int, path string, depth int)
-	addRegion := func(p unsafe.Pointer, n uintptr, root int, path string) {
+	addRegion := func(p unsafe.Pointer, n uintptr, root int, path string, t reflect.Type) {
 		if p == nil || n == 0 {
 			return
 		}
-		s.regs = append(s.regs, region{p, n, root, path})
+		var holes [][2]uintptr
+		if t != nil {
+			syncHoles(t, 0, &holes)
+		}
+		s.regs = append(s.regs, region{p, n, root, path, holes})
 	}
 	walk = func(v reflect.Value, root int, path string, depth int) {
 		if !v.IsValid() || depth > 12 {
@@ -59,11 +102,14 @@ func NewSnap(roots ...any) *Snap {
 				return
 			}
 			seen[p] = true
-			addRegion(p, t.Elem().Size(), root, path)
+			addRegion(p, t.Elem().Size(), root, path, t.Elem())
 			if hasPointers(t.Elem()) {
 				walk(v.Elem(), root, path, depth+1)
 			}
 		case reflect.Struct:
+			if p := t.PkgPath(); p == "sync" || p == "sync/atomic" || strings.HasSuffix(p, "/zzverif/vsched") {
+				return // synchronisation / cache machinery: not part of the object's value (see syncHoles)
+			}
 			for i := 0; i < t.NumField(); i++ {
 				if hasPointers(t.Field(i).Type) {
 					walk(access(v.Field(i)), root, path+"."+t.Field(i).Name, depth+1)
@@ -76,7 +122,11 @@ func NewSnap(roots ...any) *Snap {
 			p := unsafe.Pointer(v.Pointer())
 			if !seen[p] {
 				seen[p] = true
-				addRegion(p, uintptr(v.Len())*t.Elem().Size(), root, path+"[]")
+				var at reflect.Type
+				if v.Len() <= 64 {
+					at = reflect.ArrayOf(v.Len(), t.Elem())
+				}
+				addRegion(p, uintptr(v.Len())*t.Elem().Size(), root, path+"[]", at)
 			}
 			if hasPointers(t.Elem()) {
 				for i := 0; i < v.Len(); i++ {
@@ -111,7 +161,7 @@ func NewSnap(roots ...any) *Snap {
 // Changed returns (root index, path) of the first region whose memory differs from the snapshot, or (-1, "").
 func (s *Snap) Changed() (int, string) {
 	for i, r := range s.regs {
-		if !bytes.Equal(unsafe.Slice((*byte)(r.p), r.n), s.saved[i]) {
+		if !equalOutside(unsafe.Slice((*byte)(r.p), r.n), s.saved[i], r.holes) {
 			return r.root, r.path
 		}
 	}
